@@ -52,7 +52,7 @@ func genOp(n int) *rapid.Generator[Op] {
 // genBig draws a case over 300 endpoints: long lists (rotations with a stride), reports for high indices.
 func genBig(t *rapid.T) *Case {
 	list := func(label string) []int {
-		n := rapid.SampledFrom([]int{1, 2, 255, 256, 257, 258, 300}).Draw(t, label+"len")
+		n := rapid.SampledFrom([]int{1, 2, 13, 14, 16, 20, 40, 255, 256, 257, 258, 300}).Draw(t, label+"len")
 		start := rapid.IntRange(0, 299).Draw(t, label+"start")
 		stride := rapid.SampledFrom([]int{1, 7, 299, 113}).Draw(t, label+"stride")
 		l := make([]int, 0, n)
@@ -72,10 +72,12 @@ func genBig(t *rapid.T) *Case {
 			e := rapid.IntRange(0, 299).Draw(t, "be")
 			if rapid.Bool().Draw(t, "edge") {
 				e = rapid.SampledFrom([]int{0, 1, 254, 255, 256, 257, 299}).Draw(t, "bedge")
+			} else if rapid.Bool().Draw(t, "member") {
+				e = c.Init[rapid.IntRange(0, len(c.Init)-1).Draw(t, "bmember")] // an endpoint of the initial list (mostly still listed)
 			}
 			return Op{K: "avail", E: e, B: rapid.IntRange(0, 3).Draw(t, "bb") != 0}
 		}
-	}), 1, 12).Draw(t, "bops")
+	}), 1, 24).Draw(t, "bops")
 	c.Ops = append(c.Ops, Op{K: "quiesce"})
 	return c
 }
@@ -116,6 +118,21 @@ func genCase0(t *rapid.T) *Case {
 	}
 	if rapid.IntRange(0, 4).Draw(t, "editOpts") == 0 {
 		c.EditOpts = rapid.IntRange(1, 4).Draw(t, "editKind")
+	}
+	if rapid.IntRange(0, 39).Draw(t, "manydrops") == 0 && len(c.Init) >= 2 {
+		// steer: many delayed switches in a row are overtaken by a reorder (the pending switch is outdated when its timer
+		// fires); whatever book-keeping the timers have, the next delayed switch still happens
+		x, y := c.Init[0], c.Init[1]
+		c.Init = []int{x, y}
+		if c.D <= 0 {
+			c.D = 50
+		}
+		ops := []Op{{K: "avail", E: y, B: true}}
+		for i, n := 0, rapid.SampledFrom([]int{3, 63, 64, 65, 70, 130}).Draw(t, "ndrops"); i < n; i++ {
+			ops = append(ops, Op{K: "avail", E: x, B: true}, Op{K: "set", L: []int{y, x}}, Op{K: "quiesce"}, Op{K: "avail", E: x, B: false}, Op{K: "set", L: []int{x, y}})
+		}
+		c.Ops = append(ops, Op{K: "avail", E: x, B: true}, Op{K: "quiesce"})
+		return c
 	}
 	if rapid.IntRange(0, 2).Draw(t, "readd") == 0 {
 		// steer: an endpoint is removed and re-added (a new incarnation) while timers of the old one are pending
